@@ -1998,8 +1998,8 @@ def emit_step(ev):
     if len(loops) != 1:
         raise Unsupported(f'_integrate has {len(loops)} top-level while loops')
     body = loops[0].body
-    i0 = [i for i, n in enumerate(body) if isinstance(n, ast.Assign) and isinstance(n.targets[0], ast.Name)
-          and n.targets[0].id == 'velocity_adjusted']
+    # the step region starts after the recording block (`if filter_flags: …`) and ends with `time += delta_time`
+    i0 = [i + 1 for i, n in enumerate(body) if isinstance(n, ast.If) and ev.dotted(n.test) == 'filter_flags']
     i1 = [i for i, n in enumerate(body) if isinstance(n, ast.AugAssign) and isinstance(n.target, ast.Name) and n.target.id == 'time']
     if len(i0) != 1 or len(i1) != 1 or i1[0] < i0[0]:
         raise Unsupported('the step region of _integrate was not recognised')
